@@ -767,12 +767,16 @@ def suite_compare(chk, model):
             toks = e2e_entries(rng, chk.n(36, 150), chk.n(36, 150))
             entries = [(ID_STYLES[i % len(ID_STYLES)] % i, render(r), render(l), pl)
                        for i, (r, l, pl) in enumerate(toks)]
-            reports, stats, (rents, lents), (reftext, l10ntext, lint) = run_compare_e2e(tmp, loc, entries)
-            adapter_cases.append((loc, reftext, l10ntext))
-            adapter_impl.append([0, [stats.get(k, 0) for k in SUMMARY_KEYS]])
-            adapter_impl.append([0, lint])
-            adapter_reqs.append((6, [[loc] if loc is not None else [], reftext, l10ntext]))
-            adapter_reqs.append((7, [["en-US"], reftext, [l10ntext]]))
+            # small files for the whole-pipeline model runs (the extracted model works on unary
+            # offsets: its cost grows fast with the length of the text)
+            for k in range(0, len(entries), 8):
+                _, st, _, (rtx, ltx, lint) = run_compare_e2e(tmp, loc, entries[k:k + 8])
+                adapter_cases.append((loc, rtx, ltx))
+                adapter_impl.append([0, [st.get(key, 0) for key in SUMMARY_KEYS]])
+                adapter_impl.append([0, lint])
+                adapter_reqs.append((6, [[loc] if loc is not None else [], rtx, ltx]))
+                adapter_reqs.append((7, [["en-x-moz-reference"], rtx, [ltx]]))
+            reports, stats, (rents, lents), _ = run_compare_e2e(tmp, loc, entries)
             if len(rents) != len(entries) or len(lents) != len(entries):
                 raise RuntimeError("harness: generated files did not parse into their entries")
             by_key, stray = {}, []
